@@ -376,7 +376,8 @@ pub fn run(tier: Tier) -> i32 {
                             let p = check_fuzzy("fst", &built.fst, &set, q, bound, cap, !collision)
                                 .or_else(|| check_fuzzy("mutable", &built.mutable, &set, q, bound, cap, !collision))
                                 // every split of the words over the two children
-                                .or_else(|| built.merged.iter().find_map(|(_, m)| check_fuzzy("merged", m, &set, q, bound, cap, !collision)));
+                                // (with a cap that cannot bite, the split is immaterial: last split only)
+                                .or_else(|| built.merged.iter().enumerate().filter(|(mi, _)| cap < 100 || mi + 1 == built.merged.len()).find_map(|(_, (_, m))| check_fuzzy("merged", m, &set, q, bound, cap, !collision)));
                             if let Some((sig, detail)) = p {
                                 if viols.len() < 12 {
                                     viols.push(Violation { sig, case: json!({"engine":"E1","dictionary": words.iter().map(|w| c2s(&w.0)).collect::<Vec<_>>(), "query": c2s(q), "bound": bound, "cap": cap}), detail });
